@@ -733,5 +733,15 @@ func main() {
 				return emit(stream, api, q, randomVars(r), rng.Pick(r, []string{"", "", "", "Q", "A"}), r.Intn(nWeird), r.Intn(3))
 			})
 		}
+		// 7. the composed stream: requests inside the common envelope of the stage models, on which
+		// the composed model (Pipe/Compose.v) is run from the bytes and compared
+		nc := 2400
+		if h.Thorough() {
+			nc = 60000
+		}
+		for i := 0; i < nc; i++ {
+			kind := composedKinds[i%len(composedKinds)]
+			h.Case(func(r *rng.R) sexp.Node { return composedCase(r, kind) })
+		}
 	})
 }
